@@ -182,14 +182,43 @@ class ByKey:
 
 
 
-@contract(PR + "_get_nodes_by_anchor", props=["C15"])
+ANCH = "(hasattr(%s, 'anchor') and stripped_attrs == %s.anchor.value)"
+
+
+def WFA(node, parent, ref):
+    """Coordinates of what an ANCHOR iteration yields: the anchored member at parent[ref]; the reported path is the
+    incoming path plus the `[&name]` segment (computed once, before the loop)."""
+    return ["len(yielded) <= 1",
+            "implies(len(yielded) == 1, yielded[0].node is %s and yielded[0].parent is %s and same(yielded[0].parentref, %s))" % (node, parent, ref),
+            "implies(len(yielded) == 1, extended_by(yielded[0].ancestry, ancestry, (%s, %s)))" % (parent, ref),
+            "implies(len(yielded) == 1, yielded[0].path is next_translated_path and same(yielded[0].path_segment, pathseg))"]
+
+
+@contract(PR + "_get_nodes_by_anchor", props=["C15", "C01", "C02"])
 class ByAnchor:
+    """ANCHOR segment `&name`.  Over a sequence / a set: one iteration per member, yielding the member exactly when it
+    bears the anchor; nothing is yielded outside that loop.  Over a hash: per entry, the value exactly when the key or
+    the value bears the anchor (the merge-key look-up that precedes the loop is from-code: safety only).  Each result
+    has well-formed coordinates and the path `<incoming>[&name]`."""
     params = dict(KW, yaml_path="YAMLPath", segment_index="int")
     assume_fields = dict(PATH_FIELDS, **{"self.data": "Any"})
     # entered only for ANCHOR segments (whose attribute, by the parser's invariant, is the anchor's name)
     requires = PARSED + ["yaml_path._escaped[segment_index][0] is PathSegmentTypes.ANCHOR"]
     inline = [YP + "escaped", YP + "unescaped"]
     raises = ["YAMLPathException"]
+    ensures = [
+        "implies(isinstance(data, list), looped('for lstidx, ele in enumerate(data)'))",
+        "implies(isinstance(data, (CommentedSet, set)) and not isinstance(data, (list, dict)), looped('for ele in list(data)'))",
+        "implies(not isinstance(data, (list, dict, CommentedSet, set)), len(out) == 0)",
+    ]
+    loops = {
+        "for lstidx, ele in enumerate(data)": {"sole_yielder": True, "body_ensures": WFA("ele", "data", "lstidx") + [
+            "(len(yielded) == 1) == %s" % (ANCH % ("ele", "ele"))]},
+        "for key, val in list(data.items())": {"body_ensures": WFA("val", "data", "key") + [
+            "(len(yielded) == 1) == (%s or %s)" % (ANCH % ("key", "key"), ANCH % ("val", "val"))]},
+        "for ele in list(data)": {"sole_yielder": True, "body_ensures": WFA("ele", "data", "ele") + [
+            "(len(yielded) == 1) == %s" % (ANCH % ("ele", "ele"))]},
+    }
     opts = dict(SEG_INV, yields=NC)
 
 
@@ -332,14 +361,52 @@ class KeywordParameters:
     opts = {"returns": "List[str]"}
 
 
-@contract(PR + "_get_required_nodes", props=["C15"])
+REQ = "call_event('required')"
+SEGC = "call_event('segment')"
+
+
+@contract(PR + "_get_required_nodes", props=["C15", "C01", "C02"])
 class RequiredNodes:
+    """The required-match driver, one level of its recursion (the induction over the remaining segments is its
+    `decreases`):
+    * past the last segment it yields exactly the node it was given, with the coordinates it was given;
+    * otherwise it asks the dispatcher for segment `depth` on the given node, ONCE, and for every result of the
+      dispatcher makes ONE recursive call at depth + 1 -- on the result's node with the result's own parent,
+      reference, path and ancestry (a virtual list result: on the list, keeping the incoming coordinates) -- and
+      relays what that call yields, unchanged and in order; it yields nothing else.
+    So the sequence it yields is the concatenation, in order, of the recursive results over the dispatcher's results."""
     params = dict(KWP, yaml_path="YAMLPath", depth="int", kw_relay_segment="Any")
     assume_fields = PATH_FIELDS
     requires = INV + ["0 <= depth"]
     inline = [YP + "escaped", YP + "unescaped"]
     raises = ["YAMLPathException"]
-    opts = dict(SEG_INV, yields="NodeCoords", decreases="len(yaml_path) - depth", event="('required', data, yaml_path)")
+    ensures = [
+        "implies(depth >= seg_count(yaml_path), len(out) == 1 and out[0].node is data and out[0].parent is parent "
+        "and same(out[0].parentref, parentref) and out[0].path is translated_path and out[0].ancestry is ancestry "
+        "and same(out[0].path_segment, relay_segment))",
+        "implies(depth < seg_count(yaml_path), looped('for segment_node_coords in self._get_nodes_by_path_segment(data, yaml_path, depth, "
+        "parent=parent, parentref=parentref, translated_path=translated_path, ancestry=ancestry)'))",
+    ]
+    loops = {
+        "for segment_node_coords in self._get_nodes_by_path_segment(data, yaml_path, depth, parent=parent, parentref=parentref, "
+        "translated_path=translated_path, ancestry=ancestry)": {"sole_yielder": True, "body_ensures": [
+            "called('required') == 1 and %s[2] is yaml_path and %s[3] == depth + 1 and same(%s[8], pathseg)" % (REQ, REQ, REQ),
+            "implies(not isinstance(segment_node_coords, list), %s[1] is segment_node_coords.node and %s[4] is segment_node_coords.parent "
+            "and same(%s[5], segment_node_coords.parentref) and %s[6] is segment_node_coords.path and %s[7] is segment_node_coords.ancestry)"
+            % (REQ, REQ, REQ, REQ, REQ),
+            "implies(isinstance(segment_node_coords, list), %s[1] is segment_node_coords and same(%s[4], parent) and same(%s[5], parentref) "
+            "and %s[6] is translated_path and %s[7] is ancestry)" % (REQ, REQ, REQ, REQ, REQ),
+            # ... and outside the relay loop below, this iteration yields nothing
+            "len(yielded) == 0"]},
+        "for subnode_coord in self._get_required_nodes(segment_node_coords, yaml_path, depth + 1, parent=parent, parentref=parentref, "
+        "translated_path=translated_path, ancestry=ancestry, relay_segment=pathseg)": {
+            "sole_yielder": True, "body_ensures": ["len(yielded) == 1 and yielded[0] is subnode_coord"]},
+        "for subnode_coord in self._get_required_nodes(segment_node_coords.node, yaml_path, depth + 1, parent=segment_node_coords.parent, "
+        "parentref=segment_node_coords.parentref, translated_path=segment_node_coords.path, ancestry=segment_node_coords.ancestry, "
+        "relay_segment=pathseg)": {"sole_yielder": True, "body_ensures": ["len(yielded) == 1 and yielded[0] is subnode_coord"]},
+    }
+    opts = dict(SEG_INV, yields="NodeCoords", decreases="len(yaml_path) - depth",
+                event="('required', data, yaml_path, depth, kw_parent, kw_parentref, kw_translated_path, kw_ancestry, kw_relay_segment)")
 
 
 @contract("yamlpath.common.nodes.Nodes.node_is_aoh", props=["C15"])
